@@ -114,7 +114,9 @@ class Machine(RuleBasedStateMachine):
         self.schema = R.to_schema(recipe)
 
     def _do(self, op):
-        fails = self.h.apply(op)
+        finished, fails = runner.time_limited(lambda: self.h.apply(op), self._stats, "step")
+        if not finished:
+            return
         unknown = runner.triage(PID, self.h.case(), fails, self._stats)
         if unknown:
             runner.record_violation(self._sink, self.h.case(), unknown)
